@@ -530,15 +530,17 @@ func init() {
 		func(c *Ctx) {
 			c.load("dot/state")
 			c.ruleEquivocation()
+			c.ruleSlotWindow()
 			c.min("R-EQUIVOC", 8)
 		})
-	register("C25", "resolved-callee/ordering rule for the secondary-slot author (R-SECONDARY) and guard/constant rules of the threshold computation (R-THRESHOLDGUARDS)",
-		"Decides only the structural part of this numerical property: the secondary author index is big.Int(SetBytes = big-endian)(BLAKE2b-256(randomness || slot as 8 little-endian bytes)) mod the number of authorities, in that order and with those primitives, and both verifiers compare the claimed authority index with exactly that value; CalculateThreshold rejects c1=0, c2=0 and c>1, scales by exactly 2^128, saturates to the maximum when the result equals 2^128 and refuses results longer than 16 bytes. "+
-			"Not decided (and not decidable statically here): that the floating-point/rational arithmetic equals floor(2^128*(1-(1-c)^(1/n))) or is monotone.",
+	register("C25", "resolved-callee/ordering rule for the secondary-slot author (R-SECONDARY) and guard/constant rules (R-THRESHOLDGUARDS) and operation-tree equality (R-FORMULA) of the threshold computation",
+		"Decides only the structural part of this numerical property: the secondary author index is big.Int(SetBytes = big-endian)(BLAKE2b-256(randomness || slot as 8 little-endian bytes)) mod the number of authorities, in that order and with those primitives, and both verifiers compare the claimed authority index with exactly that value; CalculateThreshold rejects c1=0, c2=0 and c>1, scales by exactly 2^128, saturates to the maximum when the result equals 2^128 and refuses results longer than 16 bytes; the float64 it converts to a rational is, on every path, the operation tree 1 - pow(1 - f64(c1)/f64(c2), 1/f64(n)) that Substrate evaluates (no path-dependent shortcut, no re-association). "+
+			"Not decided (and not decidable statically here): that math.Pow and Rust's powf round identically, that the rational arithmetic equals floor(2^128*p), monotonicity.",
 		"math, math/big trusted", "partial claim; numerics are out of reach (DESIGN.md §5)",
 		func(c *Ctx) {
 			c.load(babeDir)
 			c.ruleBabeLottery()
+			c.ruleThresholdExpr()
 			c.min("R-SECONDARY", 5)
 			c.min("R-THRESHOLDGUARDS", 4)
 		})
